@@ -2,6 +2,7 @@
 import ast
 
 from ..astutil import (U, dotted, get_class, get_method, methods, walk_local, is_self_attr, call_name, short, params, all_functions, enum_member)
+from ..astutil import classes as classes_of
 from ..cfg import CFG, calls_at, expr_nodes
 from ..dataflow import ReachingDefs, node_of_expr, assigned_names
 from ..engmodel import ENGINE, SESSION, SERVER, CRYPTO
@@ -116,6 +117,117 @@ class Taint:
             elif isinstance(c, ast.comprehension):
                 out += self.expr(c.iter, node, depth)
         return out
+
+
+SECRET_FIELDS = {'key_material', 'key_value', 'key_block', 'data', 'secret_data', 'certificate_value', 'opaque_data_value', 'credential_value', 'password', 'secret', 'managed_object',
+                 'derivation_data', 'salt', 'iv_counter_nonce', 'signature_data', 'mac_data', 'private_key_unique_identifier_value'}
+
+
+def check_codec_exception_texts(ctx):
+    """C20.R4: exception messages built in the codec (they are logged by the session at WARNING/ERROR through logger.exception) do not format a
+    secret-bearing field object whose class renders its content in __str__/__repr__."""
+    from ..index import Index
+    from ..cfg import CFG
+    from ..guards import dominating_edges
+    src = ctx.src
+    ix = Index(src)
+    ctx.rule('C20.R4', 'no exception message in kmip/core formats a secret-bearing field (key material, key value, data, ...) whose possible classes render instance data in __str__/__repr__/__format__')
+    memo = {}
+
+    def revealing(ref):
+        if ref in memo:
+            return memo[ref]
+        memo[ref] = None
+        res = None
+        for dunder in ('__str__', '__repr__', '__format__'):
+            k, fn = ix.find_method(ref, dunder)
+            if fn is None:
+                continue
+            uses = sorted(set(n.attr for n in ast.walk(fn) if is_self_attr(n) and n.attr not in ('tag', 'type', '__class__')))
+            # super().__repr__() delegations are followed implicitly by find_method on the MRO
+            if uses:
+                res = '%s.%s uses self.%s' % (k[1], dunder, '/'.join(uses[:3]))
+                break
+        memo[ref] = res
+        return res
+    n_sites = 0
+    for rel in src.modules('kmip/core'):
+        t = src.tree(rel)
+        for q, fn, cls in all_functions(t):
+            if cls is None:
+                continue
+            raises = [r for r in walk_local(fn) if isinstance(r, ast.Raise) and r.exc is not None]
+            if not raises:
+                continue
+            g = None
+            for r in raises:
+                # expressions contributing to the message: the raise expression plus single-name locals defined in this function
+                if g is None:
+                    g = CFG(fn)
+                    rdf = ReachingDefs(g)
+                rnode = [n for n in g.nodes if n.stmt is r]
+                exprs = [r.exc]
+                if rnode:
+                    seen_defs = set()
+                    work = [(x.id, rnode[0]) for x in ast.walk(r.exc) if isinstance(x, ast.Name)]
+                    while work:
+                        nm, at = work.pop()
+                        for var, val, dn in rdf.reaching(at, nm):
+                            if dn is None or (nm, dn.id) in seen_defs:
+                                continue
+                            seen_defs.add((nm, dn.id))
+                            ve = val if isinstance(val, ast.AST) else (val[1].value if isinstance(val, tuple) and val[0] == 'aug' else None)
+                            if ve is None:
+                                continue
+                            exprs.append(ve)
+                            if isinstance(val, tuple) and val[0] == 'aug':
+                                for pp, _l in dn.pred:
+                                    work.append((nm, pp))
+                            for x in ast.walk(ve):
+                                if isinstance(x, ast.Name):
+                                    work.append((x.id, dn))
+                fields = set()
+                for e in exprs:
+                    skip = set()
+                    for x in ast.walk(e):
+                        if isinstance(x, ast.Call) and (call_name(x) or '') in ('type', 'len', 'isinstance', 'id'):
+                            for y in ast.walk(x):
+                                skip.add(id(y))
+                    for x in ast.walk(e):
+                        if id(x) in skip:
+                            continue
+                        if is_self_attr(x) and x.attr.lstrip('_') in SECRET_FIELDS and isinstance(x.ctx, ast.Load):
+                            par = getattr(x, '_parent', None)
+                            if isinstance(par, ast.Attribute):
+                                continue        # a sub-field (e.g. self.key_block.key_format_type) - judged on its own name
+                            fields.add(x.attr)
+                if not fields:
+                    continue
+                rn = [n for n in g.nodes if n.stmt is r]
+                excluded = {}
+                if rn:
+                    for tt, lab in dominating_edges(g, rn[0]):
+                        c = tt.stmt
+                        if isinstance(c, ast.Call) and call_name(c) == 'isinstance' and len(c.args) == 2 and is_self_attr(c.args[0]) and lab == 'F':
+                            ks = c.args[1].elts if isinstance(c.args[1], ast.Tuple) else [c.args[1]]
+                            excluded.setdefault(c.args[0].attr, []).extend(x for x in (ix.resolve_class(rel, k) for k in ks) if x)
+                for f in sorted(fields):
+                    n_sites += 1
+                    cands = set()
+                    cref = (rel, q.rsplit('.', 1)[0])
+                    for k in ix.mro(cref) if cref[1] in classes_of(t) else []:
+                        for mfn in [m_ for m_ in ix.class_node(k).body if isinstance(m_, ast.FunctionDef)]:
+                            for a in walk_local(mfn):
+                                if isinstance(a, ast.Assign) and any(is_self_attr(tg, f) for tg in a.targets) and isinstance(a.value, ast.Call):
+                                    rc = ix.resolve_class(k[0], a.value.func)
+                                    if rc:
+                                        cands.add(rc)
+                    cands = set(c for c in cands if not any(ix.issub(c, ex) for ex in excluded.get(f, [])))
+                    bad = sorted((c[1], revealing(c)) for c in cands if revealing(c))
+                    site = '%s:%s %s' % (rel, r.lineno, q)
+                    ctx.check(not bad, 'C20.R4', '%s|raise formats self.%s' % (q, f), site, 'self.%s may be %s: none renders instance data' % (f, sorted(c[1] for c in cands) or 'of unknown class (caller supplied)'),
+                              'the exception message formats self.%s, which can be %s: the text (logged by the session at ERROR level) then contains the secret content' % (f, bad))
+    ctx.count('codec_exception_sites_formatting_secret_fields', n_sites, 1)
 
 
 def run(ctx):
@@ -241,6 +353,7 @@ def run(ctx):
     setter = get_method(cc, '_set_logging_level')
     nonev = [n for n in walk_local(setter) if isinstance(n, ast.Assign) and isinstance(n.targets[0], ast.Subscript) and U(n.value) == 'logging.INFO']
     ctx.check(bool(nonev), 'C20.R3', 'KmipServerConfig._set_logging_level|none-means-info', '%s:%s' % (CONFIG, setter.lineno), 'unset level falls back to INFO', 'an unset logging level no longer falls back to INFO')
+    check_codec_exception_texts(ctx)
     ctx.not_decided += ['texts of third-party exceptions passed to logger.exception (checked once for SQLAlchemy: binary parameters are rendered as <memory at ...>)',
                         'log records emitted by third-party libraries themselves']
     ctx.assumptions += ['repr/str of pie managed objects and BytearrayStream print their content (so whole objects are sources)',
